@@ -71,3 +71,43 @@ def complex_state(pt):
 
 def space(nv):
     return torch.tensor([[(k >> (nv - 1 - s)) & 1 for s in range(nv)] for k in range(2 ** nv)], dtype=torch.double)
+
+
+# ---- purification RBM / density matrix -------------------------------------------------------
+def random_purif_point(rng, nvmax=4, nhmax=4, namax=4, budget=1700, small=False):
+    nv, nh, na = rng.randint(1, nvmax), rng.randint(1, nhmax), rng.randint(1, namax)
+    B = rng.choice([2, 3])
+    top = 43 if B == 2 else 27
+    mag = rng.choice([1, 2, 3, 5, 9, top]) if not small else 1
+    npar = nv * nh + 2 * nv * na + nv + nh + 2 * na
+    mag = max(1, min(mag, budget // npar))
+    g = lambda: nz(rng, mag)  # noqa: E731
+    h = lambda: nz(rng, max(1, mag // 2))  # noqa: E731   (U = 2u, d = 2dd)
+    return dict(nv=nv, nh=nh, na=na, B=B,
+                W=[[g() for _ in range(nv)] for _ in range(nh)], b=[g() for _ in range(nv)],
+                c=[g() for _ in range(nh)], u=[[h() for _ in range(nv)] for _ in range(na)],
+                dd=[h() for _ in range(na)],
+                Wm=[[g() for _ in range(nv)] for _ in range(nh)], cm=[g() for _ in range(nh)],
+                um=[[nz(rng, 3) for _ in range(nv)] for _ in range(na)], bmm=[nz(rng, 3) for _ in range(nv)])
+
+
+def density_state(pt):
+    s = DensityMatrix(pt["nv"], pt["nh"], pt["na"], gpu=False)
+    lnB = math.log(pt["B"])
+    T = lambda x: torch.tensor(x, dtype=torch.double)  # noqa: E731
+    with torch.no_grad():
+        s.rbm_am.weights_W.copy_(T(pt["W"]) * lnB)
+        s.rbm_am.weights_U.copy_(T(pt["u"]) * (2 * lnB))
+        s.rbm_am.visible_bias.copy_(T(pt["b"]) * lnB)
+        s.rbm_am.hidden_bias.copy_(T(pt["c"]) * lnB)
+        s.rbm_am.aux_bias.copy_(T(pt["dd"]) * (2 * lnB))
+        s.rbm_ph.weights_W.copy_(T(pt["Wm"]) * lnB)
+        s.rbm_ph.hidden_bias.copy_(T(pt["cm"]) * lnB)
+        s.rbm_ph.weights_U.copy_(T(pt["um"]) * math.pi)
+        s.rbm_ph.visible_bias.copy_(T(pt["bmm"]) * math.pi)
+        s.rbm_ph.aux_bias.zero_()
+    return s
+
+
+def rows(n):
+    return [[(k >> (n - 1 - s)) & 1 for s in range(n)] for k in range(2 ** n)]
